@@ -13,7 +13,7 @@ CFG = dict(
     mix=dict(create=4, assign=4, assign0=3, remove=3, build=3, destroynow=2, destroy=1, update=1, clone=1, cleararch=1, lock=1, unlock=1, dump=1),
     corpus=[x for x in "C03,C05".split(",")],
     n_quick=500, n_thorough=6000, len=(8, 45),
-    gen=dict(lock_bias=0.15, letters='BCDFGH'),
+    gen=dict(lock_bias=0.15, letters='BCDFGH', ndeps=1),
     # per-op lifecycle counts of the instrumented types (constructs / move-constructs / move-assigns / destroys) printed by
     # the harness and by the model's event function `WM.events` (Model/Lifecycle.lean) and diffed line by line
     prelude="events on\n",
